@@ -1,5 +1,5 @@
 #!/bin/bash
-# usage: tools/scratch.sh <dir>  -- copy /repo/spatialpandas (without tests) to <dir>/spatialpandas
+# usage: tools/scratch.sh <dir>  -- copy <SCRATCH_SRC or /repo>/spatialpandas (without tests) to <dir>/spatialpandas
 set -e
 mkdir -p "$1"
-rsync -a --include='*/' --exclude='tests/' --include='*.py' --exclude='*' /repo/spatialpandas "$1"/
+rsync -a --include='*/' --exclude='tests/' --include='*.py' --exclude='*' "${SCRATCH_SRC:-/repo}"/spatialpandas "$1"/
